@@ -388,6 +388,12 @@ KeyType(e) ==
 \* validator treats '"literal" =>' as if it were cut (no fall-through to a later member when the value fails).
 IsCut(cx, e) == e.key.kk \in {"bare", "val"} \/ (e.key.kk = "type" /\ e.key.cut)
                 \/ (e.key.kk = "type" /\ e.key.t.k = "lit" /\ cx.fmt = "json" /\ "JsonArrowLiteralKeyCuts" \in cx.dev)
+\* RFC 8610 3.5.4: a cut commits to its entry as soon as the key matches.  An optional GROUP ('? (k: T)', '? g') whose cut member
+\* finds its key among the remaining pairs can therefore not be skipped: either it matches or the map does not.
+CutBlocks(cx, R, g, ps, left) ==
+  \E j \in 1..Len(g.galts) : \E i \in 1..Len(g.galts[j]) :
+     LET x == g.galts[j][i] IN
+     x.k = "ent" /\ x.key.kk # "none" /\ IsCut(cx, x) /\ \E p \in left : M1(cx, R, KeyType(x), ps[p].key, {})
 MapGroup(cx, R, g, ps, lefts) == UNION {MapSeq(cx, R, g.galts[j], 1, ps, lefts) : j \in 1..Len(g.galts)}
 MapSeq(cx, R, es, i, ps, lefts) ==
   IF i > Len(es) \/ lefts = {} THEN lefts
@@ -397,8 +403,8 @@ MapEnt(cx, R, e, ps, left) ==
      /\ "GroupAlternatesFirstWins" \in cx.dev
   THEN \* loose deviation: a group name with //= alternates inside a map (first alternate without errors wins)
        IF cx.dv THEN {left \ S : S \in SUBSET left} ELSE {}
-  ELSE IF IsGroupEntry(R, e) THEN MapRep(cx, R, e, EntryGroup(R, e), ps, {left}, 0, IF e.lo = 0 THEN {left} ELSE {})
-  ELSE IF SpliceOf(R, e).ok THEN MapRep(cx, R, e, SpliceOf(R, e).g, ps, {left}, 0, IF e.lo = 0 THEN {left} ELSE {})
+  ELSE IF IsGroupEntry(R, e) THEN MapRep(cx, R, e, EntryGroup(R, e), ps, {left}, 0, IF e.lo = 0 /\ ~CutBlocks(cx, R, EntryGroup(R, e), ps, left) THEN {left} ELSE {})
+  ELSE IF SpliceOf(R, e).ok THEN MapRep(cx, R, e, SpliceOf(R, e).g, ps, {left}, 0, IF e.lo = 0 /\ ~CutBlocks(cx, R, SpliceOf(R, e).g, ps, left) THEN {left} ELSE {})
   ELSE IF e.k = "name" \/ e.key.kk = "none" THEN {}      \* a keyless entry cannot match a map pair (outside the fragment)
   ELSE
     LET kt == KeyType(e)
